@@ -5,7 +5,7 @@
 #      deterministic scheduler) and builds the harness against it with hooks on (-tags verif);
 #      if a changed /repo uses a construct the instrumenter does not support, the harness is
 #      built against /repo itself instead (real goroutines; noted in the output);
-#   2. for C12 also a -race build of the instrumented harness;
+#   2. for C12 and C20 also a -race build of the instrumented harness (second pass);
 #   3. runs the seeded simulation for one property and writes evidence/<id>.json.
 # exit 0 held / 1 VIOLATION / 2 harness or build trouble (never a VIOLATION).
 set -u
@@ -17,33 +17,8 @@ export GOFLAGS=-mod=mod GOPROXY=off GOTOOLCHAIN=auto
 unset GOSUMDB
 SCRATCH="$(mktemp -d "${TMPDIR:-/tmp}/verif-$ID-XXXXXX")" || exit 2
 trap 'rm -rf "$SCRATCH"' EXIT
-BIN="$SCRATCH/vsim"; RACEBIN=""
-MODE=instrumented
-if go build -o "$SCRATCH/instr" ./instr >"$SCRATCH/instr-build.log" 2>&1 \
-   && "$SCRATCH/instr" -src "$REPO" -dst "$SCRATCH/repo" -simrt "$VERIF/simrt" >"$SCRATCH/instr.log" 2>&1; then
-  sed -e "s#=> /repo#=> $SCRATCH/repo#" -e "s#=> ./simrt#=> $VERIF/simrt#" go.mod > "$SCRATCH/harness.mod"
-  cp go.sum "$SCRATCH/harness.sum"
-  if ! go build -modfile="$SCRATCH/harness.mod" -tags verif -o "$BIN" ./cmd/vsim >"$SCRATCH/build.log" 2>&1; then
-    echo "NOTE: instrumented build failed, falling back to the plain build:"; head -5 "$SCRATCH/build.log"; MODE=plain
-  elif [ "$ID" = "C12" ] || [ "$ID" = "C20" ]; then
-    if go build -race -modfile="$SCRATCH/harness.mod" -tags verif -o "$SCRATCH/vsim-race" ./cmd/vsim >"$SCRATCH/build-race.log" 2>&1; then
-      RACEBIN="$SCRATCH/vsim-race"
-    else
-      echo "BUILD-FAILED (race build of the instrumented harness):"; head -20 "$SCRATCH/build-race.log"; exit 2
-    fi
-  fi
-else
-  echo "NOTE: instrumentation not possible, falling back to the plain build (real goroutines):"; tail -3 "$SCRATCH/instr.log" "$SCRATCH/instr-build.log" 2>/dev/null | head -8; MODE=plain
-fi
-if [ "$MODE" = plain ]; then
-  sed -e "s#=> /repo#=> $REPO#" -e "s#=> ./simrt#=> $VERIF/simrt#" go.mod > "$SCRATCH/plain.mod"
-  cp go.sum "$SCRATCH/plain.sum"
-  if ! go build -modfile="$SCRATCH/plain.mod" -tags verif -o "$BIN" ./cmd/vsim >"$SCRATCH/build.log" 2>&1; then
-    echo "BUILD-FAILED (harness against /repo working tree with -tags verif):"; head -40 "$SCRATCH/build.log"
-    exit 2
-  fi
-fi
-grep -h "^instr: rewrites" "$SCRATCH/instr.log" 2>/dev/null
+RACE=0; { [ "$ID" = C12 ] || [ "$ID" = C20 ]; } && RACE=1
+. scripts/build.sh "$SCRATCH" $RACE || exit 2
 export TMPDIR="$SCRATCH"
 "$BIN" check -prop "$ID" -tier "$TIER" -verif "${VERIF_OUT:-$VERIF}" -mode "$MODE" ${RACEBIN:+-racebin "$RACEBIN"} ${VSIM_ARGS:-}
 exit $?
